@@ -40,6 +40,7 @@ var c11URIs = map[string]string{
 	"customScheme":    "com.example.c11:/cb",
 	"trailingQ":       "https://c11.example.test/cb?",
 	"queryEncodedAmp": "https://c11.example.test/cb?x=a%26b%3Dc&y=%C3%A9",
+	"queryMarkup":     `https://c11.example.test/cb?x="><script>alert(1)</script>&y='z'`,
 }
 
 type c11World struct {
